@@ -243,7 +243,7 @@ func (w *World) Anchors() *Anchors {
 					}
 				}
 				if x.Common().IsInvoke() {
-					switch x.Common().Method.Name() {
+					switch ifaceMethodRole(x.Common().Method) {
 					case "dequeue":
 						if rn != nil && a.CS != nil && rn.Obj() == a.CS.Obj() {
 							a.ClientReasm = fn
@@ -425,4 +425,46 @@ func (c *Ctx) need(rule, role string, fn *ssa.Function) bool {
 	}
 	c.fail(rule, "anchor "+role, "-", "the construct playing role '"+role+"' could not be located in the current tree, so this rule cannot be established")
 	return false
+}
+
+// ifaceMethodRole classifies a method of the unexported sender/receiver interfaces by signature, so that the
+// anchors do not depend on the method's name: (T) error -> accept; () (T, bool) -> dequeue; ([]byte) error -> send.
+func ifaceMethodRole(m *types.Func) string {
+	if m.Pkg() == nil || m.Pkg().Path() != rootPath {
+		return ""
+	}
+	s := m.Type().(*types.Signature)
+	// the declaring interface (receiver type of an interface method)
+	var it *types.Interface
+	if s.Recv() != nil {
+		it, _ = s.Recv().Type().Underlying().(*types.Interface)
+	}
+	hasDequeue, hasSendLike := false, false
+	if it != nil {
+		for i := 0; i < it.NumMethods(); i++ {
+			ms := it.Method(i).Type().(*types.Signature)
+			if ms.Params().Len() == 0 && ms.Results().Len() == 2 {
+				if b, ok := ms.Results().At(1).Type().Underlying().(*types.Basic); ok && b.Kind() == types.Bool {
+					hasDequeue = true
+				}
+			}
+			if ms.Params().Len() == 1 && ms.Results().Len() == 1 && types.TypeString(ms.Params().At(0).Type(), nil) == "[]byte" {
+				hasSendLike = true
+			}
+		}
+	}
+	switch {
+	case s.Params().Len() == 0 && s.Results().Len() == 2 && hasDequeue:
+		if b, ok := s.Results().At(1).Type().Underlying().(*types.Basic); ok && b.Kind() == types.Bool {
+			return "dequeue"
+		}
+	case s.Params().Len() == 1 && s.Results().Len() == 1 && types.TypeString(s.Results().At(0).Type(), nil) == "error":
+		if types.TypeString(s.Params().At(0).Type(), nil) == "[]byte" && hasSendLike && it != nil && it.NumMethods() == 2 {
+			return "send"
+		}
+		if hasDequeue {
+			return "accept"
+		}
+	}
+	return ""
 }
